@@ -252,6 +252,89 @@ def inline_components(doc: dict) -> dict:
     return out
 
 
+def schema_inline_equivalence(rep, d) -> None:
+    """One object schema T used at every schema position, once by reference and once as an inline copy.  The two clients must agree on the wire
+    at that position (decode + encode of the same instances), and everything that does not belong to the user of the position - T's own class,
+    the other users of T, the endpoints - must be byte-identical: a reference affects nothing else."""
+    from . import C18 as c18
+    S = {"type": "string"}
+    T = {"type": "object", "required": ["id"], "properties": {"id": {"type": "integer"}, "x": S, "e": {"type": "string", "enum": ["a", "b"]}, "when": {"type": "string", "format": "date"}}}
+    full, mini = {"id": 1, "x": "v", "e": "b", "when": "2020-01-02"}, {"id": 2}
+    own = {"type": "object", "properties": {"own": S}}
+    pos = {"prop": (lambda u: {"type": "object", "properties": {"t": u}}, [{"t": full}, {"t": mini}, {}]),
+           "item": (lambda u: {"type": "object", "properties": {"ts": {"type": "array", "items": u}}}, [{"ts": [full, mini]}, {"ts": []}]),
+           "union": (lambda u: {"type": "object", "properties": {"u": {"oneOf": [u, {"type": "integer"}]}}}, [{"u": full}, {"u": 3}]),
+           "nullable": (lambda u: {"type": "object", "properties": {"u": {"oneOf": [u, {"type": "null"}]}}}, [{"u": mini}, {"u": None}]),
+           "addl": (lambda u: {"type": "object", "additionalProperties": u}, [{"k1": full, "k2": mini}]),
+           "allof": (lambda u: {"allOf": [u, own]}, [dict(full, own="o"), mini]),
+           "allof-last": (lambda u: {"allOf": [own, u]}, [dict(full, own="o"), mini]),
+           "allof-required": (lambda u: {"allOf": [u, dict(own, required=["x", "own"])]}, [dict(full, own="o")]),
+           "allof-top-required": (lambda u: {"allOf": [u, own], "required": ["x"]}, [dict(full, own="o")]),
+           "allof-redeclared": (lambda u: {"allOf": [u, {"type": "object", "properties": {"x": {"type": "string", "default": "dflt"}, "when": {"type": "string", "format": "date", "description": "again"}}}]}, [dict(mini, x="v"), mini]),
+           "allof-enum-narrowed": (lambda u: {"allOf": [u, {"type": "object", "properties": {"e": {"type": "string", "enum": ["a"]}}}]}, [dict(mini, e="a"), mini]),
+           "nested": (lambda u: {"type": "object", "properties": {"inner": {"type": "object", "properties": {"t": u}}}}, [{"inner": {"t": full}}, {"inner": {}}])}
+    ok = lambda sch: {"200": {"description": "d", "content": {"application/json": {"schema": sch}}}}
+    R = {"$ref": "#/components/schemas/T"}
+
+    def mk(user):
+        return gen.mkdoc({"T": T, "Holder": user, "Other": {"type": "object", "properties": {"t": R, "ts": {"type": "array", "items": R}}},
+                          "Kid": {"allOf": [R, {"type": "object", "properties": {"k": S}}]}},
+                         {"/t": {"get": {"operationId": "getT", "responses": ok(R)}, "post": {"operationId": "postT", "requestBody": {"content": {"application/json": {"schema": R}}}, "responses": ok({"$ref": "#/components/schemas/Other"})}},
+                          "/h": {"get": {"operationId": "getH", "responses": ok({"$ref": "#/components/schemas/Holder"})}}})
+    jobs = []
+    for name, (user, _) in pos.items():
+        jobs += [(mk(user(R)), str(d / f"sie_{name.replace('-', '_')}_ref"), {}), (mk(user(json.loads(json.dumps(T)))), str(d / f"sie_{name.replace('-', '_')}_inl"), {})]
+    res = treegen.generate_many(jobs)
+    for i, (name, (user, insts)) in enumerate(pos.items()):
+        g1, g2 = res[2 * i], res[2 * i + 1]
+        rep.count(1, ("schema-inline", name))
+        a, b = f"sie_{name.replace('-', '_')}_ref", f"sie_{name.replace('-', '_')}_inl"
+        if g1["exc"] or g2["exc"] or g1["rejected"] or g2["rejected"] or bool(g1["diags"]) != bool(g2["diags"]):
+            rep.violate(f"C20/schema-inline/{name}/generation-differs", f"T at position {name}: by reference {g1['exc'] or g1['diags'][:1]}, inline copy {g2['exc'] or g2['diags'][:1]}")
+            continue
+        s1, s2 = gen.snapshot(d / a, content=True), gen.snapshot(d / b, content=True)
+        mine = lambda k: k.startswith("models/holder") or k == "models/__init__.py"
+        diff = sorted(k for k in set(s1) | set(s2) if k.endswith(".py") and not mine(k) and s1.get(k) != s2.get(k))
+        if diff:
+            rep.violate(f"C20/schema-inline/{name}/affects-something-else", f"T used at position {name} by reference instead of as an inline copy changes files that do not belong to the user: {diff[:4]}",
+                        files=diff, by_reference=(s1.get(diff[0]) or b"").decode(errors="replace")[:2000], inline=(s2.get(diff[0]) or b"").decode(errors="replace")[:2000])
+        if g1["diags"]:
+            continue
+        plan = [("Holder", inst) for inst in insts]
+        try:
+            o1, o2 = _roundtrips(d, a, plan), _roundtrips(d, b, plan)
+        except RuntimeError as e:
+            rep.violate(f"C20/schema-inline/{name}/package-broken", str(e)[-300:])
+            continue
+        for inst, r1, r2 in zip(insts, o1, o2):
+            rep.count(1, ("schema-inline-wire", name, json.dumps(inst, sort_keys=True)))
+            if r1 != r2:
+                rep.violate(f"C20/schema-inline/{name}/wire-behaviour-differs", f"T at position {name}: {json.dumps(inst)} gives {r1} by reference and {r2} with an inline copy", instance=inst)
+
+
+def _roundtrips(d, pkg: str, plan: list) -> list:
+    import subprocess
+
+    from ..common import VENV_PY
+    script = r"""
+import json, sys, importlib
+job = json.load(sys.stdin); sys.path.insert(0, job["parent"])
+m = importlib.import_module(job["pkg"] + ".models")
+out = []
+for cls, inst in job["plan"]:
+    try:
+        o = getattr(m, cls).from_dict(json.loads(json.dumps(inst)))
+        out.append({"enc": json.loads(json.dumps(o.to_dict(), default=repr))})
+    except BaseException as ex:
+        out.append({"err": type(ex).__name__})
+print(json.dumps(out))
+"""
+    p = subprocess.run([VENV_PY, "-I", "-c", script], input=json.dumps({"parent": str(d), "pkg": pkg, "plan": plan}), capture_output=True, text=True, timeout=300)
+    if p.returncode != 0 or not p.stdout.strip():
+        raise RuntimeError(f"package {pkg} does not import: " + p.stderr[-300:])
+    return json.loads(p.stdout.strip().splitlines()[-1])
+
+
 def documents_leg(rep, d, quick: bool) -> None:
     """Whole documents that use component parameters / request bodies / responses, generated as written and with every such reference
     inlined: the api modules must be byte-identical."""
@@ -327,6 +410,7 @@ def run(rep) -> None:
         schema_references(rep, cases, rnd, d, quick)
         malformed(rep, d)
         dangling_containment(rep)
+        schema_inline_equivalence(rep, d)
         documents_leg(rep, d, quick)
         # code -> spec: the resolution of references through the retry rounds, as recorded by the hooks, is a behaviour of Pipeline.tla
         tsample = rnd.sample(cases, 500 if quick else 5000)
